@@ -35,6 +35,10 @@ ASSUMPTIONS = [
     "the instance does not change any returned value (armi only logs a warning there)",
     "Void, the abstract bases (Material, Fluid, SimpleSolid, FuelMaterial, Water) and the classes whose composition "
     "and density are supplied by the caller (Custom, _Mixture) are instantiated but otherwise excluded and counted",
+    "input_params calls applyInputParams as blueprints do (fresh parentless instance, customIsotopics passed when the "
+    "signature accepts it).  Observation, not asserted: Sulfur.applyInputParams takes no **kwargs, so in the blueprint "
+    "flow (which always adds customIsotopics) the call raises the TypeError that _constructMaterial swallows and "
+    "Sulfur's TD_frac is silently ignored; the check calls Sulfur without customIsotopics",
 ]
 
 # Candidate genuine defects found on the unchanged tree (see replays/C19/defect_*.json).  The search skips exactly
@@ -49,6 +53,9 @@ EXCLUDE_KNOWN = {
     "materials/density-zero/refDens-unset/Concrete": False,  # repaired
     "materials/density-complex-at-range-end/sodium": False,  # repaired
     "materials/Tc-entry-raises/air": False,  # repaired
+    "input-params/mox-mass_frac_PU02-raises-KeyError": False,  # repaired in /repo (d9ade3a); searched again
+    "input-params/thu-U233_wt_frac-always-refused": True,  # known finding (repair = new modification logic)
+    "input-params/uthzr-needs-parent-component": True,  # known finding (repair = new modification logic)
     "elements/abundance-sum/calcium": True,  # known finding (data rounding 3e-5; armi's own tolerance is 1e-4)
 }
 
@@ -1119,6 +1126,174 @@ def dup_execute(case):
     return out
 
 
+# ----------------------------------------------------------------------------------------------
+# part 8: applyInputParams with the class's documented modification keywords (this is how blueprints instantiate a
+# material: cls() then applyInputParams(**materialModifications, customIsotopics=...), without a parent component)
+
+_ENRICH_KEYS = {"B10_wt_frac": "B10", "U235_wt_frac": "U235", "U233_wt_frac": "U233", "LI6_wt_frac": "LI6", "LI_wt_frac": "LI6"}
+_TD_KEYS = ("TD_frac", "theoretical_density", "sulfur_density_frac")
+_MIX_NUCS = ("U235", "U238", "PU239", "TH232")
+
+
+def ip_strategy(tier):
+    frac = st.one_of(st.sampled_from([0.0, 1.0, 0.05, 0.5]), st.floats(0.0, 1.0, allow_nan=False))
+    feed = st.lists(st.floats(0.01, 1.0, allow_nan=False), min_size=len(_MIX_NUCS), max_size=len(_MIX_NUCS))
+    return st.fixed_dictionaries(
+        {
+            "x": frac,
+            "zr": st.floats(0.0, 0.5, allow_nan=False),
+            "pu": st.floats(0.01, 0.99, allow_nan=False),
+            "td": st.floats(0.05, 1.0, allow_nan=False),
+            "use": st.lists(st.booleans(), min_size=4, max_size=4),
+            "mix": st.one_of(st.none(), st.fixed_dictionaries({"w": st.floats(0.01, 1.0, allow_nan=False), "a": feed, "b": feed})),
+        }
+    )
+
+
+def _ip_classes():
+    from armi.materials import material
+
+    classes = _material_classes()
+    return [(nm, classes[nm]) for nm in sorted(classes)
+            if nm not in _EXCLUDED and classes[nm].applyInputParams is not material.Material.applyInputParams]
+
+
+def _ip_kwargs(cls, case):
+    """Keyword arguments for cls.applyInputParams chosen by the case: (kwargs, expectations)."""
+    import inspect
+
+    from armi.materials import material
+
+    params = inspect.signature(cls.applyInputParams).parameters
+    own = [k for k, p in params.items() if p.kind == p.POSITIONAL_OR_KEYWORD and k != "self"]
+    takes_kw = any(p.kind == p.VAR_KEYWORD for p in params.values())
+    groups = {"enrich": [k for k in own if k in _ENRICH_KEYS], "zr": [k for k in own if k == "ZR_wt_frac"],
+              "td": [k for k in own if k in _TD_KEYS], "pu": [k for k in own if k == "mass_frac_PU02"]}
+    chosen = [g for g, on in zip(("enrich", "zr", "td", "pu"), case["use"]) if on and groups[g]]
+    mix = case["mix"] if issubclass(cls, material.FuelMaterial) and (takes_kw or "class1_wt_frac" in own) else None
+    if not chosen and mix is None:
+        chosen = [g for g in ("enrich", "zr", "td", "pu") if groups[g]][:1]
+    kw, expect = {}, {}
+    for g in chosen:
+        if g == "enrich":
+            keys = groups[g] if case["use"][3] else groups[g][:1]  # legacy + current key together, or the first alone
+            for k in keys:
+                kw[k] = case["x"]
+            expect["enrich"] = (_ENRICH_KEYS[keys[0]], case["x"])
+        elif g == "zr":
+            kw["ZR_wt_frac"] = case["zr"]
+            expect["zr"] = case["zr"]
+        elif g == "td":
+            keys = groups[g] if case["use"][3] else groups[g][-1:] if case["use"][0] else groups[g][:1]
+            for k in keys:
+                kw[k] = case["td"]
+            expect["td"] = case["td"]
+        else:
+            kw["mass_frac_PU02"] = case["pu"]
+            expect["pu"] = case["pu"]
+    if mix is not None:
+        feeds = {}
+        for nm, ws in (("A", mix["a"]), ("B", mix["b"])):
+            tot = math.fsum(ws)
+            feeds[nm] = {n: w / tot for n, w in zip(_MIX_NUCS, ws)}
+        kw.update({"class1_wt_frac": mix["w"], "class1_custom_isotopics": "A", "class2_custom_isotopics": "B", "customIsotopics": feeds})
+        expect["mix"] = (mix["w"], feeds)
+    elif takes_kw or "customIsotopics" in own:
+        kw["customIsotopics"] = {}  # blueprints always pass it
+    return kw, expect
+
+
+def ip_execute(case):
+    from armi.nucDirectory import nuclideBases as nb
+
+    out = Out()
+    n = 0
+    for name, cls in _ip_classes():
+        if case.get("only") is not None and name != case["only"]:
+            continue
+        kw, expect = _ip_kwargs(cls, case)
+        m = cls()
+        where = "%s().applyInputParams(%s)" % (name, ", ".join("%s=%r" % kv for kv in sorted(kw.items())))
+        try:
+            m.applyInputParams(**kw)
+        except KeyError as exc:
+            if name == "MOX" and "mass_frac_PU02" in kw and exc.args == ("PU",):
+                _known_or_fail(out, case, "input-params/mox-mass_frac_PU02-raises-KeyError",
+                               "%s raises KeyError('PU'): setMassFracPuO2 calls nucDir.getNuclideNames('PU'), i.e. nucName='PU'" % where)
+                continue
+            raise
+        except ValueError as exc:
+            if name == "ThU" and "U233_wt_frac" in kw and "no other isotopes" in str(exc):
+                _known_or_fail(out, case, "input-params/thu-U233_wt_frac-always-refused",
+                               "%s raises ValueError: U233 is the only uranium nuclide of ThU, so adjustMassEnrichment refuses (%s)" % (where, str(exc)[:120]))
+                continue
+            raise
+        except AttributeError as exc:
+            if name == "UThZr" and m.parent is None and "NoneType" in str(exc):
+                _known_or_fail(out, case, "input-params/uthzr-needs-parent-component",
+                               "%s raises AttributeError: it calls self.parent.adjustMassEnrichment but blueprints apply input "
+                               "parameters before the material has a parent (%s)" % (where, exc))
+                continue
+            raise
+        n += 1
+        out.label("class:" + name, "keys:" + "+".join(sorted(k for k in kw if k != "customIsotopics")) if len(kw) > 1 or "customIsotopics" not in kw else "keys:none")
+        mf = m.massFrac
+        out.check(all(k in nb.byName for k in mf), "input-params/unknown-nuclide", lambda: "%s: keys %s" % (where, sorted(mf)))
+        out.check(all(_isreal(v) and -1e-12 <= v <= 1.0 + 1e-12 for v in mf.values()), "input-params/massfrac-outside-0-1",
+                  lambda: "%s: %s" % (where, dict(sorted(mf.items()))))
+        total = math.fsum(float(v) for v in mf.values() if _isreal(v))
+        if abs(total - 1.0) > MASSFRAC_TOL:
+            if name == "Sulfur" and abs(total - 1.0018) < 1e-5:
+                _known_or_fail(out, case, "materials/massfrac-sum/sulfur-s36", "%s: sum %.6f" % (where, total))
+            else:
+                out.fail("input-params/massfrac-sum", "%s: mass fractions sum to %.8f: %s" % (where, total, {k: round(float(v), 8) for k, v in sorted(mf.items())}))
+        if "mix" in expect:
+            w, feeds = expect["mix"]
+            hm = math.fsum(v for k, v in mf.items() if nb.byName[k].isHeavyMetal())
+            for nuc in _MIX_NUCS:
+                want = w * feeds["A"][nuc] + (1.0 - w) * feeds["B"][nuc]
+                got = mf.get(nuc, 0.0) / hm if hm else float("nan")
+                out.check(abs(got - want) <= 1e-9, "input-params/class-mix-not-applied",
+                          lambda: "%s: %s is %.10f of the heavy metal, expected %.10f" % (where, nuc, got, want))
+        elif "enrich" in expect and "pu" not in expect:
+            nuc, x = expect["enrich"]
+            z = nb.byName[nuc].z
+            elem = math.fsum(v for k, v in mf.items() if nb.byName[k].z == z)
+            got = mf.get(nuc, 0.0) / elem if elem else float("nan")
+            out.check(abs(got - x) <= 1e-9, "input-params/enrichment-not-applied",
+                      lambda: "%s: %s is %.10f of its element, requested %.10f" % (where, nuc, got, x))
+        if "pu" in expect and "mix" not in expect:
+            got = m.getMassFracPuO2()
+            out.check(_isreal(got) and abs(got - expect["pu"]) <= 1e-9, "input-params/puo2-fraction-not-applied",
+                      lambda: "%s: getMassFracPuO2() = %r" % (where, got))
+        if "zr" in expect:
+            out.check(abs(mf.get("ZR", 0.0) - expect["zr"]) <= 1e-12, "input-params/zr-fraction-not-applied",
+                      lambda: "%s: ZR mass fraction %r" % (where, mf.get("ZR")))
+        if "td" in expect:
+            got = m.fullDensFrac if name == "Sulfur" else m.getTD()
+            out.check(got == expect["td"], "input-params/td-not-applied", lambda: "%s: theoretical density fraction reads %r" % (where, got))
+        if name == "B4C":
+            boron = mf.get("B10", 0.0) / nb.byName["B10"].weight + mf.get("B11", 0.0) / nb.byName["B11"].weight
+            carbon = mf.get("C", 0.0) / nb.byName["C"].weight
+            out.check(carbon > 0 and abs(boron / carbon - 4.0) <= 1e-9, "input-params/b4c-boron-carbon-ratio",
+                      lambda: "%s: B:C atom ratio %r (B4C: 4 moles of boron per mole of carbon)" % (where, boron / carbon if carbon else None))
+        # density finite and positive at a temperature inside the stated range
+        probe = _Probe(cls)
+        dom = _function_domain(probe, "density")
+        t, units = (_NOMINAL if not isinstance(dom, tuple) or dom[0] > dom[1] else (0.5 * (dom[0] + dom[1]), dom[2]))
+        tkw = {"Tk": t} if units == "K" else {"Tc": t}
+        for fn in ("density", "pseudoDensity"):
+            val = getattr(m, fn)(**tkw)
+            if _isreal(val) and val == 0.0 and m.refDens == 0.0 and name in _REFDENS_UNSET:
+                _known_or_fail(out, case, "materials/density-zero/refDens-unset/" + name, "%s then %s(%s) = 0.0" % (where, fn, tkw))
+            else:
+                out.check(_isreal(val) and val > 0.0, "input-params/density-not-positive", lambda: "%s then %s(%s) = %r" % (where, fn, tkw, val))
+    out.evals = max(n, 1)
+    out.nontrivial = n > 0
+    out.label("mix" if case["mix"] else "no-mix")
+    return out
+
+
 PARTS = [
     Part("nuclides", nuc_execute, enumerate=nuc_enum, exhaustive=True, procs={"quick": 3, "thorough": 8},
          rule="every nuclide of the directory, one case per atomic number (plus a catch-all for Z outside 1..120): each identifier "
@@ -1160,4 +1335,10 @@ PARTS = [
               "with adjusted enrichment; the copy has the same class, the same nuclides and fractions (all known nuclides), refDens/TD, "
               "density and pseudoDensity at a temperature in the stated range, and changing the copy leaves the original unchanged; "
               "non-trivial = drawn composition has >= 2 nuclides"),
+    Part("input_params", ip_execute, strategy=ip_strategy, budget={"quick": 300, "thorough": 10000}, procs={"quick": 2, "thorough": 8},
+         rule="every Material class that overrides applyInputParams, in every case: fresh instance, applyInputParams called the way "
+              "blueprints do (no parent, customIsotopics passed) with Hypothesis-drawn legal values of its documented keywords singly "
+              "and in combination (enrichment keys incl. the deprecated twin, ZR_wt_frac, TD keys, mass_frac_PU02, class1/class2 feeds); "
+              "then: known nuclides, fractions in [0,1] summing to 1 (1e-5), requested enrichment / Zr / PuO2 fraction / TD / class mix read "
+              "back, B4C keeps B:C = 4, density and pseudoDensity finite positive in range; non-trivial = at least one class applied"),
 ]
